@@ -29,8 +29,11 @@ REQUIRED_THEOREMS = ["coherent_fixed", "bucketed_refines_assoc", "assoc_is_map_b
                      "nan_keys", "coherent_fails_neg_zero"]
 # the state the models abstract is all the state there is: the fields of the run-time structures, regenerated on every run, are the ones
 # the models were written against (Props/StateInventory)
-THEOREM_MODULES.append("Yarel.Props.StateInventory")
+THEOREM_MODULES.append("Yarel.Props.StateInventory.state_of_strings_and_maps")
 REQUIRED_THEOREMS += ['state_of_strings_and_maps']
+# the hash map natives, the key validation and the literal builder as written on this run (Props/GlueText)
+THEOREM_MODULES.append("Yarel.Props.GlueText.C12")
+REQUIRED_THEOREMS += ['build_hash_map_as_modelled', 'build_hash_map_impl_as_modelled', 'hash_map_clear_as_modelled', 'hash_map_get_as_modelled', 'hash_map_has_key_as_modelled', 'hash_map_insert_as_modelled', 'hash_map_items_as_modelled', 'hash_map_keys_as_modelled', 'hash_map_len_as_modelled', 'hash_map_remove_as_modelled', 'hash_map_values_as_modelled', 'validate_hash_map_key_as_modelled']
 LEVEL = "proof"
 ASSUMPTIONS = [
     "model Yarel/Model/HashMapM.lean transcribes core.rs hash_map_*, validate_hash_map_key, vm.rs build_hash_map, "
